@@ -1,4 +1,547 @@
 package main
 
-func authDriver(file, out string, seed int64) {}
-func authChild(file, addr string)              {}
+// C40: connection attempts against the real TCP listener.
+//
+// The server (engine with the mysql privilege database enabled, server.NewServer on 127.0.0.1:0,
+// with a throw-away TLS certificate) runs in a CHILD process (this binary, -mode authchild), so that a
+// panic that kills the server is the outcome "crash" of the attempt whose flushed begin marker has
+// no end, not a dead driver. The parent creates the accounts of each case through an ordinary root
+// connection, makes the attempt (go-sql-driver for well-formed logins, a raw socket speaking just
+// the handshake for malformed mysql_native_password responses) and records what came back.
+
+import (
+	"bytes"
+	"context"
+	"crypto/ecdsa"
+	"crypto/elliptic"
+	crand "crypto/rand"
+	"crypto/sha1"
+	"crypto/tls"
+	"crypto/x509"
+	"crypto/x509/pkix"
+	dsql "database/sql"
+	"encoding/binary"
+	"encoding/json"
+	"errors"
+	"fmt"
+	"io"
+	"math/big"
+	"math/rand"
+	"net"
+	"os"
+	"os/exec"
+	"strings"
+	"time"
+
+	gomysql "github.com/go-sql-driver/mysql"
+
+	"gmsverif/lib/vio"
+
+	sqle "github.com/dolthub/go-mysql-server"
+	"github.com/dolthub/go-mysql-server/memory"
+	"github.com/dolthub/go-mysql-server/server"
+	"github.com/dolthub/go-mysql-server/sql"
+	"github.com/dolthub/go-mysql-server/sql/mysql_db"
+)
+
+// ---- the child: the system under test ----------------------------------------------------------------
+
+func selfSigned() tls.Certificate {
+	key, err := ecdsa.GenerateKey(elliptic.P256(), crand.Reader)
+	if err != nil {
+		vio.Fatal("key: %v", err)
+	}
+	tmpl := &x509.Certificate{SerialNumber: big.NewInt(1), Subject: pkix.Name{CommonName: "verif"},
+		NotBefore: time.Now().Add(-time.Hour), NotAfter: time.Now().Add(24 * time.Hour),
+		KeyUsage: x509.KeyUsageDigitalSignature, ExtKeyUsage: []x509.ExtKeyUsage{x509.ExtKeyUsageServerAuth},
+		IPAddresses: []net.IP{net.ParseIP("127.0.0.1")}}
+	der, err := x509.CreateCertificate(crand.Reader, tmpl, tmpl, &key.PublicKey, key)
+	if err != nil {
+		vio.Fatal("cert: %v", err)
+	}
+	return tls.Certificate{Certificate: [][]byte{der}, PrivateKey: key}
+}
+
+func authChild(_ string, addrFile string) {
+	pro := memory.NewDBProvider(memory.NewDatabase("d1"))
+	e := sqle.NewDefault(pro)
+	md := e.Analyzer.Catalog.MySQLDb
+	md.SetEnabled(true)
+	md.SetPersister(&mysql_db.NoopPersister{}) // (without a persister every CREATE USER is a nil dereference)
+	md.AddRootAccount()                        // root@localhost without a password: the driver's administration connection
+	cfg := server.Config{Protocol: "tcp", Address: "127.0.0.1:0",
+		TLSConfig: &tls.Config{Certificates: []tls.Certificate{selfSigned()}}}
+	srv, err := server.NewServer(cfg, e, sql.NewContext, memory.NewSessionBuilder(pro), nil)
+	if err != nil {
+		vio.Fatal("server: %v", err)
+	}
+	go func() {
+		if err := srv.Start(); err != nil {
+			fmt.Fprintln(os.Stderr, "server stopped:", err)
+		}
+	}()
+	if err := os.WriteFile(addrFile+".tmp", []byte(srv.Listener.Addr().String()), 0o644); err != nil {
+		vio.Fatal("%v", err)
+	}
+	os.Rename(addrFile+".tmp", addrFile)
+	io.Copy(io.Discard, os.Stdin) // lives as long as the parent keeps stdin open
+	os.Exit(0)
+}
+
+// ---- the parent: the driver ------------------------------------------------------------------------------
+
+type Acct struct {
+	User   string `json:"user"`
+	Host   string `json:"host"`
+	Pw     string `json:"pw"`
+	Plugin string `json:"plugin"`
+	Locked string `json:"locked"`
+}
+
+type Proof struct {
+	K    string `json:"k"`
+	Pw   string `json:"pw"`
+	N    int    `json:"n"`
+	Base string `json:"base"`
+}
+
+type Attempt struct {
+	User  string `json:"user"`
+	TLS   bool   `json:"tls"`
+	Proof Proof  `json:"proof"`
+}
+
+type AuthCase struct {
+	ID    int             `json:"id"`
+	Accts json.RawMessage `json:"accts"`
+	Att   json.RawMessage `json:"att"`
+}
+
+type AuthOut struct {
+	O    string `json:"o"` // accept | reject | dropped | crash | switch | timeout | error
+	Cu   string `json:"cu"`
+	Code int    `json:"code"`
+	Note string `json:"note,omitempty"`
+}
+
+type AuthEvent struct {
+	Ev    string          `json:"ev"` // begin | end
+	ID    int             `json:"id"`
+	Accts json.RawMessage `json:"accts,omitempty"`
+	Att   json.RawMessage `json:"att,omitempty"`
+	Out   *AuthOut        `json:"out,omitempty"`
+}
+
+type childProc struct {
+	cmd    *exec.Cmd
+	stdin  io.WriteCloser
+	dead   chan struct{}
+	addr   string
+	logf   string
+	admin  *dsql.DB
+	starts int
+}
+
+func startChild(dir string, n int) *childProc {
+	c := &childProc{dead: make(chan struct{})}
+	addrFile := fmt.Sprintf("%s/addr-%d", dir, n)
+	c.logf = fmt.Sprintf("%s/server-%d.log", dir, n)
+	lf, err := os.Create(c.logf)
+	if err != nil {
+		vio.Fatal("%v", err)
+	}
+	c.cmd = exec.Command(os.Args[0], "-mode", "authchild", "-addr", addrFile)
+	c.cmd.Stderr = lf
+	c.cmd.Stdout = lf
+	c.stdin, _ = c.cmd.StdinPipe()
+	if err := c.cmd.Start(); err != nil {
+		vio.Fatal("child: %v", err)
+	}
+	go func() { c.cmd.Wait(); lf.Close(); close(c.dead) }()
+	for i := 0; ; i++ {
+		if b, err := os.ReadFile(addrFile); err == nil {
+			c.addr = string(b)
+			break
+		}
+		select {
+		case <-c.dead:
+			vio.Fatal("server child died while starting: %s", tail(c.logf))
+		default:
+		}
+		if i > 600 {
+			vio.Fatal("server child did not start")
+		}
+		time.Sleep(50 * time.Millisecond)
+	}
+	db, err := dsql.Open("mysql", fmt.Sprintf("root:@tcp(%s)/", c.addr))
+	if err != nil {
+		vio.Fatal("admin: %v", err)
+	}
+	db.SetMaxOpenConns(1)
+	c.admin = db
+	return c
+}
+
+func (c *childProc) isDead(wait time.Duration) bool {
+	select {
+	case <-c.dead:
+		return true
+	case <-time.After(wait):
+		return false
+	}
+}
+
+func (c *childProc) stop() {
+	if c.admin != nil {
+		c.admin.Close()
+	}
+	c.stdin.Close()
+	select {
+	case <-c.dead:
+	case <-time.After(3 * time.Second):
+		c.cmd.Process.Kill()
+	}
+}
+
+// tail: the interesting end of the server log (from the last panic report on, else the last bytes).
+func tail(path string) string {
+	b, _ := os.ReadFile(path)
+	if k := bytes.LastIndex(b, []byte("panic")); k >= 0 {
+		if k > 200 {
+			k -= 200
+		} else {
+			k = 0
+		}
+		b = b[k:]
+		if len(b) > 1800 {
+			b = b[:1800]
+		}
+		return string(b)
+	}
+	if len(b) > 1500 {
+		b = b[len(b)-1500:]
+	}
+	return string(b)
+}
+
+func q(s string) string { return "'" + strings.ReplaceAll(s, "'", "''") + "'" }
+
+var pluginName = map[string]string{"native": "mysql_native_password", "sha2": "caching_sha2_password"}
+
+// configure replaces every account except root by the accounts of the case, through SQL.
+func (c *childProc) configure(accts []Acct) error {
+	rows, err := c.admin.Query("SELECT user, host FROM mysql.user")
+	if err != nil {
+		return err
+	}
+	var drop [][2]string
+	for rows.Next() {
+		var u, h string
+		if err := rows.Scan(&u, &h); err != nil {
+			return err
+		}
+		if !(u == "root" && h == "localhost") {
+			drop = append(drop, [2]string{u, h})
+		}
+	}
+	rows.Close()
+	for _, d := range drop {
+		if _, err := c.admin.Exec("DROP USER " + q(d[0]) + "@" + q(d[1])); err != nil {
+			return fmt.Errorf("drop %v: %w", d, err)
+		}
+	}
+	for _, a := range accts {
+		st := "CREATE USER " + q(a.User) + "@" + q(a.Host) + " IDENTIFIED WITH " + pluginName[a.Plugin]
+		if a.Pw != "none" {
+			st += " BY " + q(a.Pw)
+		}
+		if a.Locked == "create" {
+			st += " ACCOUNT LOCK"
+		}
+		if _, err := c.admin.Exec(st); err != nil {
+			return fmt.Errorf("%s: %w", st, err)
+		}
+		if a.Locked == "update" {
+			if _, err := c.admin.Exec("UPDATE mysql.user SET account_locked = 'Y' WHERE user = " + q(a.User) + " AND host = " + q(a.Host)); err != nil {
+				return fmt.Errorf("lock: %w", err)
+			}
+		}
+	}
+	return nil
+}
+
+// ---- attempts --------------------------------------------------------------------------------------------
+
+func wellFormed(addr string, att Attempt) AuthOut {
+	cfg := gomysql.NewConfig()
+	cfg.User = att.User
+	if att.Proof.Pw != "none" {
+		cfg.Passwd = att.Proof.Pw
+	}
+	cfg.Net, cfg.Addr = "tcp", addr
+	cfg.Timeout, cfg.ReadTimeout, cfg.WriteTimeout = 5*time.Second, 10*time.Second, 10*time.Second
+	cfg.AllowNativePasswords = true
+	if att.TLS {
+		cfg.TLSConfig = "verif"
+	}
+	conn, err := gomysql.NewConnector(cfg)
+	if err != nil {
+		return AuthOut{O: "error", Note: err.Error()}
+	}
+	db := dsql.OpenDB(conn)
+	defer db.Close()
+	ctx, cancel := context.WithTimeout(context.Background(), 15*time.Second)
+	defer cancel()
+	c, err := db.Conn(ctx)
+	if err != nil {
+		var me *gomysql.MySQLError
+		switch {
+		case errors.As(err, &me):
+			return AuthOut{O: "reject", Code: int(me.Number), Note: me.Message}
+		case errors.Is(err, context.DeadlineExceeded):
+			return AuthOut{O: "timeout", Note: err.Error()}
+		case strings.Contains(err.Error(), "invalid connection"), strings.Contains(err.Error(), "bad connection"),
+			strings.Contains(err.Error(), "EOF"), strings.Contains(err.Error(), "connection reset"), strings.Contains(err.Error(), "broken pipe"):
+			return AuthOut{O: "dropped", Note: err.Error()}
+		}
+		return AuthOut{O: "error", Note: err.Error()}
+	}
+	defer c.Close()
+	var cu string
+	if err := c.QueryRowContext(ctx, "SELECT CURRENT_USER()").Scan(&cu); err != nil {
+		return AuthOut{O: "accept", Cu: "?", Note: "CURRENT_USER(): " + err.Error()}
+	}
+	return AuthOut{O: "accept", Cu: cu}
+}
+
+func readPacket(c net.Conn) ([]byte, byte, error) {
+	var h [4]byte
+	if _, err := io.ReadFull(c, h[:]); err != nil {
+		return nil, 0, err
+	}
+	n := int(h[0]) | int(h[1])<<8 | int(h[2])<<16
+	b := make([]byte, n)
+	if _, err := io.ReadFull(c, b); err != nil {
+		return nil, 0, err
+	}
+	return b, h[3], nil
+}
+
+func writePacket(c net.Conn, seq byte, p []byte) error {
+	h := []byte{byte(len(p)), byte(len(p) >> 8), byte(len(p) >> 16), seq}
+	_, err := c.Write(append(h, p...))
+	return err
+}
+
+func nativeScramble(salt []byte, pw string) []byte {
+	s1 := sha1.Sum([]byte(pw))
+	s2 := sha1.Sum(s1[:])
+	h := sha1.New()
+	h.Write(salt)
+	h.Write(s2[:])
+	x := h.Sum(nil)
+	for i := range x {
+		x[i] ^= s1[i]
+	}
+	return x
+}
+
+func junk(rng *rand.Rand, n int) []byte {
+	b := make([]byte, n)
+	for i := range b {
+		b[i] = byte(1 + rng.Intn(255))
+	}
+	return b
+}
+
+// response builds the n bytes the raw client answers with.
+func response(p Proof, salt []byte, rng *rand.Rand) []byte {
+	if p.Base == "right" {
+		s := nativeScramble(salt, "pw1")
+		if p.N <= 20 {
+			return s[:p.N]
+		}
+		return append(s, junk(rng, p.N-20)...)
+	}
+	return junk(rng, p.N)
+}
+
+// rawAttempt speaks the connection phase by hand: HandshakeV10 <- , HandshakeResponse41 -> with the
+// chosen bytes as mysql_native_password auth response, then reads OK / ERR / auth switch.
+func rawAttempt(addr string, att Attempt, rng *rand.Rand) AuthOut {
+	c, err := net.DialTimeout("tcp", addr, 5*time.Second)
+	if err != nil {
+		return AuthOut{O: "dropped", Note: "dial: " + err.Error()}
+	}
+	defer c.Close()
+	c.SetDeadline(time.Now().Add(8 * time.Second))
+	hs, _, err := readPacket(c)
+	if err != nil || len(hs) < 40 || hs[0] != 10 {
+		return AuthOut{O: "error", Note: fmt.Sprintf("handshake: %v", err)}
+	}
+	i := 1 + bytes.IndexByte(hs[1:], 0) + 1 // protocol version, server version NUL
+	i += 4                                  // connection id
+	salt := append([]byte{}, hs[i:i+8]...)
+	i += 8 + 1 + 2 + 1 + 2 + 2 // part 1, filler, caps low, charset, status, caps high
+	alen := int(hs[i])
+	i += 1 + 10
+	n2 := alen - 8
+	if n2 < 13 {
+		n2 = 13
+	}
+	salt = append(salt, hs[i:i+n2]...)
+	salt = salt[:20]
+	const caps = 0x1 | 0x200 | 0x8000 | 0x2000 | 0x80000 // LONG_PASSWORD, PROTOCOL_41, SECURE_CONNECTION, TRANSACTIONS, PLUGIN_AUTH
+	resp := response(att.Proof, salt, rng)
+	var p bytes.Buffer
+	binary.Write(&p, binary.LittleEndian, uint32(caps))
+	binary.Write(&p, binary.LittleEndian, uint32(1<<24-1))
+	p.WriteByte(33)
+	p.Write(make([]byte, 23))
+	p.WriteString(att.User)
+	p.WriteByte(0)
+	p.WriteByte(byte(len(resp)))
+	p.Write(resp)
+	p.WriteString("mysql_native_password")
+	p.WriteByte(0)
+	if err := writePacket(c, 1, p.Bytes()); err != nil {
+		return AuthOut{O: "dropped", Note: "write: " + err.Error()}
+	}
+	seq := byte(3)
+	for round := 0; round < 2; round++ {
+		r, _, err := readPacket(c)
+		if err != nil {
+			if ne, ok := err.(net.Error); ok && ne.Timeout() {
+				return AuthOut{O: "timeout", Note: err.Error()}
+			}
+			return AuthOut{O: "dropped", Note: err.Error()}
+		}
+		if len(r) == 0 {
+			return AuthOut{O: "error", Note: "empty packet"}
+		}
+		switch r[0] {
+		case 0x00:
+			return AuthOut{O: "accept"}
+		case 0xff:
+			code := 0
+			if len(r) >= 3 {
+				code = int(r[1]) | int(r[2])<<8
+			}
+			return AuthOut{O: "reject", Code: code, Note: string(r[3:])}
+		case 0xfe:
+			j := bytes.IndexByte(r[1:], 0)
+			if j < 0 {
+				return AuthOut{O: "error", Note: "bad auth switch"}
+			}
+			plugin := string(r[1 : 1+j])
+			if plugin != "mysql_native_password" || round == 1 {
+				return AuthOut{O: "switch", Note: plugin}
+			}
+			nsalt := r[1+j+1:]
+			if len(nsalt) > 20 {
+				nsalt = nsalt[:20]
+			}
+			if err := writePacket(c, seq, response(att.Proof, nsalt, rng)); err != nil {
+				return AuthOut{O: "dropped", Note: "write: " + err.Error()}
+			}
+			seq += 2
+		default:
+			return AuthOut{O: "error", Note: fmt.Sprintf("unexpected packet 0x%02x", r[0])}
+		}
+	}
+	return AuthOut{O: "error", Note: "no final packet"}
+}
+
+func authDriver(file, out string, seed int64) {
+	gomysql.RegisterTLSConfig("verif", &tls.Config{InsecureSkipVerify: true})
+	gomysql.SetLogger(nopLogger{})
+	dir, err := os.MkdirTemp("", "verif-auth-")
+	if err != nil {
+		vio.Fatal("%v", err)
+	}
+	defer os.RemoveAll(dir)
+	wr, err := vio.NewWriter(out)
+	if err != nil {
+		vio.Fatal("%v", err)
+	}
+	defer wr.Close()
+	rng := rand.New(rand.NewSource(seed))
+	rep := &vio.Report{Extra: map[string]interface{}{}}
+	byOut := map[string]int{}
+	nchild := 0
+	ch := startChild(dir, nchild)
+	defer func() { ch.stop() }()
+	cur := ""
+	crashes, panics := 0, 0
+	err = vio.ReadNDJSON(file, func(i int, line []byte) error {
+		var cs AuthCase
+		if err := json.Unmarshal(line, &cs); err != nil {
+			return err
+		}
+		var accts []Acct
+		var att Attempt
+		if err := json.Unmarshal(cs.Accts, &accts); err != nil {
+			return err
+		}
+		if err := json.Unmarshal(cs.Att, &att); err != nil {
+			return err
+		}
+		if string(cs.Accts) != cur {
+			if err := ch.configure(accts); err != nil {
+				vio.Fatal("configure accounts %s: %v\n%s", cs.Accts, err, tail(ch.logf))
+			}
+			cur = string(cs.Accts)
+		}
+		rep.Cases++
+		wr.Write(AuthEvent{Ev: "begin", ID: cs.ID})
+		wr.Flush()
+		logBefore, _ := os.Stat(ch.logf)
+		var o AuthOut
+		if att.Proof.K == "password" {
+			o = wellFormed(ch.addr, att)
+		} else {
+			o = rawAttempt(ch.addr, att, rng)
+		}
+		wait := time.Duration(0)
+		if o.O != "accept" && o.O != "reject" {
+			wait = 300 * time.Millisecond
+		}
+		if ch.isDead(wait) {
+			o = AuthOut{O: "crash", Note: tail(ch.logf)}
+			crashes++
+			nchild++
+			ch = startChild(dir, nchild)
+			if err := ch.configure(accts); err != nil {
+				vio.Fatal("configure after crash: %v", err)
+			}
+		} else if o.O == "dropped" {
+			// the listener recovers panics of its connection goroutine and logs them
+			if b, err := os.ReadFile(ch.logf); err == nil && logBefore != nil && int64(len(b)) > logBefore.Size() &&
+				bytes.Contains(b[logBefore.Size():], []byte("caught panic")) {
+				panics++
+				nb := b[logBefore.Size():]
+				k := bytes.Index(nb, []byte("caught panic"))
+				e := k + 200
+				if e > len(nb) {
+					e = len(nb)
+				}
+				o.Note = "server log: " + string(nb[k:e])
+			}
+		}
+		byOut[o.O]++
+		wr.Write(AuthEvent{Ev: "end", ID: cs.ID, Accts: cs.Accts, Att: cs.Att, Out: &o})
+		return nil
+	})
+	if err != nil {
+		vio.Fatal("%v", err)
+	}
+	rep.Extra["by_outcome"] = byOut
+	rep.Extra["server_crashes"] = crashes
+	rep.Extra["server_panics_logged"] = panics
+	rep.Extra["server_starts"] = nchild + 1
+	rep.Emit()
+}
+
+type nopLogger struct{}
+
+func (nopLogger) Print(v ...interface{}) {}
